@@ -43,6 +43,7 @@ type Profile struct {
 	Deposits  bool    // run the deposit fast-forward fragment
 	NoFaults  bool    // never let validators miss votes (C03 scope)
 	Fragments []string
+	SubMs     float64 // <0: block times stay on whole milliseconds; otherwise about a third of the blocks get a sub-millisecond part
 }
 
 var defaultWeights = map[string]float64{
@@ -71,6 +72,7 @@ type Gen struct {
 	BaseMonitor
 	c   *Chain
 	r   *Rng
+	jr  *Rng // separate stream for sub-millisecond block-time jitter (does not perturb the op stream)
 	tb  *TxBuilder
 	P   Profile
 	Ops map[string]int // attempted
@@ -92,7 +94,7 @@ type Gen struct {
 }
 
 func NewGen(c *Chain, seed int64, p Profile) *Gen {
-	g := &Gen{c: c, r: NewRng(seed, "gen:"+p.Name), tb: NewTxBuilder(c), P: p, Ops: map[string]int{}, Ok: map[string]int{}, Rej: map[string]int{}}
+	g := &Gen{c: c, r: NewRng(seed, "gen:"+p.Name), jr: NewRng(seed, "jitter:"+p.Name), tb: NewTxBuilder(c), P: p, Ops: map[string]int{}, Ok: map[string]int{}, Rej: map[string]int{}}
 	for _, pr := range [][2]string{{"eth", "usd"}, {"btc", "usd"}, {"trb", "usd"}, {"sol", "usd"}, {"atom", "usd"}, {"eth", "btc"}} {
 		g.spots = append(g.spots, SpotPriceQuery(pr[0], pr[1]))
 	}
@@ -296,6 +298,13 @@ func (g *Gen) Plan() BlockPlan {
 	if g.ForceGap != 0 {
 		p.Gap = g.ForceGap
 		g.ForceGap = 0
+	}
+	// CometBFT block times are at least 1 ms apart but carry nanoseconds: a third of the blocks get a sub-millisecond part
+	if g.P.SubMs >= 0 && g.jr.Chance(0.35) {
+		p.Gap += time.Duration(g.jr.Pick(1_000_000))
+		if g.jr.Chance(0.2) {
+			p.Gap = p.Gap/time.Millisecond*time.Millisecond + 999_999 // just below the next millisecond
+		}
 	}
 	out := txs[:0]
 	for _, t := range txs {
